@@ -57,6 +57,7 @@ SPEC = {
         "assumptions": ["in-memory database: memdb serialises write transactions, so the doc-push lock is redundant for seq assignment on this backend (MongoDB-only races are out of reach)"],
         "parts": [
             {"name": "seq", "test": "TestC04", "checks": [1200, 12000], "shards": [4, 14], "timeout": [900, 7200]},
+            {"name": "par", "test": "TestC04Par", "pkg": "c16", "race": True, "checks": [40, 800], "shards": [4, 14], "timeout": [900, 7200]},
         ],
     },
     "C06": {
